@@ -165,11 +165,13 @@ OnExcept(s, new) ==                       \* Process.on_except: a done future is
   LET s1 == IF s.fut.st # "pending" THEN [s EXCEPT !.fut = [st |-> "pending", val |-> None]] ELSE s
   IN Then(FutSet(s1, "exc", new.val), LAMBDA t : Hook(t, "on_except"))
 
+\* a Kill command without a message ("NOMSG"): killed_msg() is None, the status text and the KilledError text are empty
+Txt(v) == IF v = "NOMSG" THEN "" ELSE v
 OnKill(s, new) ==                         \* Process.on_kill: status := text; future fails with KilledError(text)
-  LET s1 == [s EXCEPT !.status = new.val]
+  LET s1 == [s EXCEPT !.status = Txt(new.val)]
       s2 == IF "F10" \in Fixes /\ s1.fut.st = "cancelled"
             THEN [s1 EXCEPT !.fut = [st |-> "pending", val |-> None]] ELSE s1
-  IN Then(FutSet(s2, "killed", new.val), LAMBDA t : Hook(t, "on_kill"))
+  IN Then(FutSet(s2, "killed", Txt(new.val)), LAMBDA t : Hook(t, "on_kill"))
 
 OnEntering(s, new) ==
   CASE new.label = "CREATED"  -> Hook(s, "on_create")          \* (construction) creation time, uuid, inputs parsed and validated
